@@ -41,7 +41,7 @@ def check_order(dlf, exp, i, opmap):
     want_id = exp.header_id(i).ljust(65)
     if hid is None or hid.values != [want_id]:
         out.append(('header-id', 'header', f"ID {hid.values if hid else None!r}, expected {want_id!r}"))
-    if [t.label for t in fh.template] != ['SEQUENCE-NUMBER', 'ID']:
+    if sorted(t.label for t in fh.template) != ['ID', 'SEQUENCE-NUMBER']:
         out.append(('header-template', 'header', f"{[t.label for t in fh.template]}"))
     # origin sets: contiguous, immediately after the header
     types = [s.type for _, s in dlf.sets]
